@@ -237,37 +237,96 @@ def run(ctx) -> None:
                 okd = okd or (bool(m_) and m_[0][0] is dres)
         r3.check(okd, f"EnergyResult.{mname}: data = {frag}", m, m.node,
                  f"EnergyResult.{mname} does not combine the data element-wise (`{frag}`)", stmt=frag)
-    r3.check("return self + -1 * other" in norm(e.methods["__sub__"].node), "a − b = a + (−1)·b", e.methods["__sub__"], e.methods["__sub__"].node,
-             "EnergyResult.__sub__ is not a + (−1)·b", stmt="__sub__")
-    r3.check("return self * (1.0 / number)" in norm(e.methods["__truediv__"].node), "a / x = a·(1/x)", e.methods["__truediv__"],
-             e.methods["__truediv__"].node, "EnergyResult.__truediv__ is not a·(1/x)", stmt="__truediv__")
-    ta = norm(e.methods["__add__"].node).replace(" ", "")
-    r3.check("ifother==0orotherisNoneorisinstance(other,VoidResult):returnself" in ta.replace("\n", ""), "0 / None / VoidResult are neutral for +",
-             e.methods["__add__"], e.methods["__add__"].node, "EnergyResult.__add__ no longer returns self for 0/None/VoidResult", stmt="neutral")
+    def returns_alg(m, want, what: str) -> bool:
+        """every value returned by method m equals the rational expression `want(a, b)` in (self, second parameter)"""
+        from ..algebra import Rat, to_rat
+        from ..sem import return_cases
+        MS = Sem(idx, m)
+        MS.inline_helpers = False
+        p2 = m.params[1] if len(m.params) > 1 else None
+        a_, b_ = Rat.sym("self"), Rat.sym(p2 or "_")
+
+        def env(x):
+            if isinstance(x, ast.Name) and x.id in ("self", p2):
+                return Rat.sym(x.id)
+            return None
+        cases = return_cases(MS)
+        if not cases:
+            return False
+        for v_, _cs, st_ in cases:
+            try:
+                r_ = to_rat(MS.resolve(v_, MS.cfg.node(st_)), env)
+            except AnalysisError:
+                return False
+            if not r_.equals(want(a_, b_)):
+                return False
+        return True
+
+    from ..algebra import Rat as _Rat
+    msub, mdiv = e.methods["__sub__"], e.methods["__truediv__"]
+    r3.check(returns_alg(msub, lambda a, b: a - b, "a − b"), "a − b = a + (−1)·b", msub, msub.node, "EnergyResult.__sub__ is not a + (−1)·b", stmt="__sub__")
+    r3.check(returns_alg(mdiv, lambda a, b: a / b, "a / x"), "a / x = a·(1/x)", mdiv, mdiv.node, "EnergyResult.__truediv__ is not a·(1/x)", stmt="__truediv__")
+    # neutral elements of +
+    madd = e.methods["__add__"]
+    from ..sem import return_cases, canon_cond
+    AS = Sem(idx, madd)
+    oth_ = madd.params[1]
+    neutral: Set[str] = set()
+    for v_, cs_, st_ in return_cases(AS, resolve=False):
+        if isinstance(v_, ast.Name) and v_.id == "self":
+            for t_, p_ in cs_:
+                if not p_:
+                    continue
+                try:
+                    ce = ast.parse(t_, mode="eval").body
+                except SyntaxError:
+                    continue
+                for dj in (ce.values if isinstance(ce, ast.BoolOp) and isinstance(ce.op, ast.Or) else [ce]):
+                    neutral.add(canon_cond(dj, True)[0].replace(" ", ""))
+    want_neutral = [{f"0=={oth_}", f"{oth_}==0"}, {f"{oth_}isNone"}, {f"isinstance({oth_},VoidResult)", f"(isinstance({oth_},VoidResult))"}]
+    r3.check(all(w & neutral for w in want_neutral), "0 / None / VoidResult are neutral for +",
+             madd, madd.node, f"EnergyResult.__add__ no longer returns self for 0/None/VoidResult (returns self when: {sorted(neutral)})", stmt="neutral")
     k = idx.cls(KB, "K__Result")
     r3.instance("K__Result")
+    import re as _re
     KM = Sem(idx, k.methods["__mul__"])
     okkm = False
     for cc in _ctor_calls(k.methods["__mul__"]):
         dv = next((kk.value for kk in cc.keywords if kk.arg == "data"), cc.args[0] if cc.args else None)
         if dv is not None:
             el_ = KM.element(dv, KM.du.node_of_expr(cc))
-            import re as _re
             okkm = okkm or (el_ is not None and _re.sub(r"IT\d+_\d+", "I", norm(el_)) in (f"self.data_list[I] * {k.methods['__mul__'].params[1]}", f"{k.methods['__mul__'].params[1]} * self.data_list[I]"))
     r3.check(okkm, "K__Result.__mul__ scales every block", k.methods["__mul__"],
              k.methods["__mul__"].node, "K__Result.__mul__ does not scale every data block", stmt="K mul")
-    r3.check("self.data_list = [d1 + d2 for d1, d2 in zip(self.data_list, other.data_list)]" in norm(k.methods["add"].node), "K__Result.add is element-wise",
-             k.methods["add"], k.methods["add"].node, "K__Result.add is not element-wise", stmt="K add")
-    r3.check("data=self.data - other.data" in norm(k.methods["__sub__"].node), "K__Result.__sub__ is element-wise", k.methods["__sub__"],
-             k.methods["__sub__"].node, "K__Result.__sub__ is not element-wise", stmt="K sub")
+    kadd = k.methods["add"]
+    KA = Sem(idx, kadd)
+    ko = kadd.params[1]
+    okka = False
+    for st_ in stmts(kadd.node):
+        if isinstance(st_, ast.Assign) and norm(st_.targets[0]) == "self.data_list":
+            el_ = KA.element(st_.value, KA.cfg.node(st_))
+            t_ = _re.sub(r"IT\d+_\d+", "I", norm(el_)) if el_ is not None else ""
+            okka = t_ in (f"self.data_list[I] + {ko}.data_list[I]", f"{ko}.data_list[I] + self.data_list[I]")
+        elif isinstance(st_, ast.AugAssign) and isinstance(st_.op, ast.Add) and isinstance(st_.target, ast.Subscript) and norm(st_.target.value) == "self.data_list":
+            lp_ = enclosing(KA.pm, st_, ast.For)
+            okka = lp_ is not None and norm(st_.value) == f"{ko}.data_list[{norm(st_.target.slice)}]"
+    r3.check(okka, "K__Result.add is element-wise", kadd, kadd.node, "K__Result.add is not element-wise", stmt="K add")
+    ksub = k.methods["__sub__"]
+    KS2 = Sem(idx, ksub)
+    oksub = False
+    for cc in _ctor_calls(ksub):
+        dv = next((kk.value for kk in cc.keywords if kk.arg == "data"), cc.args[0] if cc.args else None)
+        if dv is not None:
+            oksub = oksub or KS2.rnorm(dv, KS2.du.node_of_expr(cc)) == f"self.data - {ksub.params[1]}.data"
+    r3.check(oksub, "K__Result.__sub__ is element-wise", ksub, ksub.node, "K__Result.__sub__ is not element-wise", stmt="K sub")
     v = idx.cls(RS, "VoidResult")
     r3.instance("VoidResult")
-    r3.check("return other" in norm(v.methods["__add__"].node) and "return self" in norm(v.methods["__mul__"].node) and
-             "return self" in norm(v.methods["transform"].node) and "return -1 * other" in norm(v.methods["__sub__"].node),
-             "VoidResult: 0 + b = b, 0·x = 0, 0 − b = −b, sym(0) = 0", f"{RS}:VoidResult", v.node, "VoidResult is no longer the neutral element",
+    okvoid = returns_alg(v.methods["__add__"], lambda a, b: b, "b") and returns_alg(v.methods["__mul__"], lambda a, b: a, "a") and \
+        returns_alg(v.methods["transform"], lambda a, b: a, "a") and returns_alg(v.methods["__sub__"], lambda a, b: -b, "−b")
+    r3.check(okvoid, "VoidResult: 0 + b = b, 0·x = 0, 0 − b = −b, sym(0) = 0", f"{RS}:VoidResult", v.node, "VoidResult is no longer the neutral element",
              stmt="VoidResult")
     rb = idx.cls(RS, "Result")
-    r3.check("return self * other" in norm(rb.methods["__rmul__"].node) and "return self + other" in norm(rb.methods["__radd__"].node),
+    r3.check(returns_alg(rb.methods["__rmul__"], lambda a, b: a * b, "a·b") and returns_alg(rb.methods["__radd__"], lambda a, b: a + b, "a+b"),
              "x·a = a·x and b + a = a + b", f"{RS}:Result", rb.node, "Result.__rmul__/__radd__ changed", stmt="r-ops")
     d = idx.cls(RD, "ResultDict")
     r3.instance("ResultDict")
@@ -317,21 +376,51 @@ def run(ctx) -> None:
     if len(sinks) != 2 or len(rets) != 1:
         raise AnalysisError("transform_tensor: expected transformTR(res), transformInv(res) and one return")
 
+    VIEW_METHODS = ("transpose", "swapaxes", "reshape", "view", "squeeze", "ravel")
+    VIEW_FUNCS = ("np.moveaxis", "np.transpose", "np.swapaxes", "np.asarray", "np.reshape", "np.squeeze", "np.atleast_1d", "np.ravel",
+                  "numpy.moveaxis", "numpy.transpose", "numpy.swapaxes", "numpy.asarray")
+
+    def alias(e: ast.AST, at: int, seen: Set[int]) -> Optional[str]:
+        """None when the value of e is certainly a new array (not sharing memory with the operand); otherwise what it may share with"""
+        if isinstance(e, ast.Call):
+            cn = call_name(e)
+            if cn in COPYING or (isinstance(e.func, ast.Attribute) and e.func.attr == "copy"):
+                return None
+            if norm(e.func) == "self.rotate":
+                return None          # a matrix product: always a new array (trusted)
+            if isinstance(e.func, ast.Attribute) and e.func.attr in VIEW_METHODS and cn not in VIEW_FUNCS:
+                return alias(e.func.value, at, seen)
+            if cn in VIEW_FUNCS and e.args:
+                return alias(e.args[0], at, seen)
+            return f"`{norm1(e, 60)}` (may alias the operand)"
+        if isinstance(e, (ast.BinOp, ast.UnaryOp, ast.Constant)):
+            return None
+        if isinstance(e, ast.Attribute) and e.attr == "T":
+            return alias(e.value, at, seen)
+        if isinstance(e, ast.Subscript):
+            return alias(e.value, at, seen)
+        if isinstance(e, ast.Name):
+            for df in du.reaching(e.id, at):
+                if df.kind == "param":
+                    return f"the operand `{e.id}` itself"
+                if id(df) in seen:
+                    continue
+                seen.add(id(df))
+                if df.value is None:
+                    return f"`{df.kind}` definition of {e.id} (may alias the operand)"
+                w = alias(df.value, df.node, seen)
+                if w is not None:
+                    return w if df.value is None or not isinstance(df.value, ast.Call) or "view" in w or "itself" in w or "may alias" in w else w
+            return None
+        return f"`{norm1(e, 60)}` (may alias the operand)"
+
     def fresh(name: str, at: int) -> Optional[str]:
-        for df in du.reaching(name, at):
-            v = df.value
-            if df.kind == "param":
-                return f"the operand `{name}` itself"
-            if isinstance(v, ast.Call) and (call_name(v) in COPYING or (isinstance(v.func, ast.Attribute) and v.func.attr in ("copy", "transpose") and
-                                                                       call_name(v) not in ("np.asarray",))):
-                # .transpose(...) of self.rotate(...) (a matmul result) is a view of a NEW array
-                if isinstance(v.func, ast.Attribute) and v.func.attr == "transpose" and "self.rotate(" not in norm(v) and "self.rotate(" not in TS4.rnorm(v, df.node):
-                    return f"`{norm1(v, 60)}` (a view of the operand)"
-                continue
-            if isinstance(v, ast.Call) and norm(v.func) == "self.rotate":
-                continue
-            return f"`{norm1(v, 60) if v is not None else df.kind}` (may alias the operand)"
-        return None
+        w = alias(ast.Name(id=name, ctx=ast.Load()), at, set())
+        if w is not None and "itself" in w:
+            # reached through view operations?  say so
+            direct = any(df.kind == "param" for df in du.reaching(name, at))
+            return w if direct else w.replace("itself", "(through a view)")
+        return w
     if inplace:
         for c in sinks + [rets[0].value]:
             node = c.args[0] if isinstance(c, ast.Call) else c
@@ -350,6 +439,12 @@ def run(ctx) -> None:
 from ..selftest import V  # noqa: E402
 
 SELFTEST = [
+    V("EnergyResult.__sub__ adds", ER, "        return self + (-1) * other\n", "        return self + other\n", "fire", "R16.3"),
+    V("VoidResult.__sub__ loses the sign", RS, "        return (-1) * other\n", "        return other\n", "fire", "R16.3"),
+    V("0 no longer neutral for EnergyResult.__add__", ER, "if other == 0 or other is None or (isinstance(other, VoidResult)):", "if other is None or (isinstance(other, VoidResult)):", "fire", "R16.3"),
+    V("neutral: a/x written as a*(1/x) with an int literal", ER, "        return self * (1. / number)\n", "        inv = 1 / number\n        return self * inv\n", "silent"),
+    V("neutral: neutral elements tested in separate guards", ER, "        if other == 0 or other is None or (isinstance(other, VoidResult)):\n            return self\n",
+      "        if other is None or isinstance(other, VoidResult):\n            return self\n        if other == 0:\n            return self\n", "silent"),
     V("Transform saved without swap_axes (seeded C16-m1)", PS,
       "return {k: self.__getattribute__(k) for k in [\"conj\", \"factor\", \"transpose_axes\", \"swap_axes\"]}",
       "return {k: self.__getattribute__(k) for k in [\"conj\", \"factor\", \"transpose_axes\"]}", "fire", "R16.1"),
